@@ -94,6 +94,13 @@ CHECKS = {
           'Open and idle must carry a fresh probe request.',
           'FakeSock behaves like a kernel socket for failed connects; silent peer without deadline on the serial transport is not a '
           'detectable failure; idle connections broken by the peer without client I/O are exempt from the probe', '3/C08'),
+  'C09': ('S', 'model_checking',
+          'exhaustive enumeration of fault histories (down time x connect answer x up time on a 0.5 s grid x close time) executed on the real clients over a 150-200 s virtual horizon',
+          'Both stacks x 1-2 endpoints x endpoint down at first connect / at 2.25 s x refused / unanswered connects x every up time on the '
+          'grid (and never) [thorough: x client close times]: one call per second; every call issued inside a down period (defined from '
+          'environment facts) must fail at once with FailedFastError or be served by another member; reconnect gaps are non-decreasing '
+          'and capped; traffic resumes within one max interval after the endpoint is reachable; no connect after Close.',
+          'prompt in-order network; unanswered connects fail after a 20 s kernel timeout; virtual time', '3/C09'),
 }
 
 NOT_BUILT = 'check not built yet in this session (planned, see DESIGN.md section 3)'
